@@ -25,11 +25,71 @@ def execute(case):
     return run, ob
 
 
+def full_digest(run):
+    """Digest of the complete sequence of item movements + every statistic of every node and edge."""
+    def norm(x):
+        if isinstance(x, dict):
+            return tuple(sorted((str(k), norm(v)) for k, v in x.items()))
+        if isinstance(x, (list, tuple)):
+            return tuple(norm(v) for v in x)
+        if isinstance(x, float):
+            return repr(x)
+        if isinstance(x, (int, str, bool)) or x is None:
+            return x
+        return type(x).__name__
+    st = []
+    for nid in sorted(run.nodes):
+        st.append((nid, norm(getattr(run.nodes[nid], "stats", {})), getattr(run.nodes[nid], "state", None)))
+    for eid in sorted(run.edges):
+        st.append((eid, norm(getattr(run.edges[eid], "stats", {})), getattr(run.edges[eid], "state", None),
+                   tuple(getattr(x, "id", None) for x in run.edge_items(eid))))
+    crash = (run.crash[0], run.crash[2]) if run.crash else None      # the message may contain object addresses
+    return digest((run.log, st, crash))
+
+
+def c19_inprocess(case, run, ob):
+    """Same model, same parameters, same seed, once more in this interpreter."""
+    d1 = full_digest(run)
+    run2, ob2 = execute(copy.deepcopy(case))
+    d2 = full_digest(run2)
+    ob.probe("c19_inprocess_rerun")
+    if d1 != d2:
+        n = next((i for i, (a, b) in enumerate(zip(run.log, run2.log)) if a != b), min(len(run.log), len(run2.log)))
+        ob.violate("C19", "in-process-rerun", case.get("meta", {}).get("template", "?"),
+                   f"two runs of the same model in one interpreter differ; first differing history record #{n}: "
+                   f"{run.log[n] if n < len(run.log) else None} vs {run2.log[n] if n < len(run2.log) else None}")
+    return d1
+
+
+def c19_cross(case, d1, ob, hashseeds=("1", "987654321")):
+    """Same model in fresh interpreters with other hash seeds and a shifted heap."""
+    import json, os, subprocess, sys, tempfile
+    import fsim
+    fd, path = tempfile.mkstemp(suffix=".json", dir="/dev/shm" if os.path.isdir("/dev/shm") else None)
+    try:
+        with os.fdopen(fd, "w") as f:
+            json.dump(case, f)
+        for i, hs in enumerate(hashseeds):
+            env = dict(os.environ)
+            env["PYTHONHASHSEED"] = hs
+            p = subprocess.run([sys.executable, os.path.join(fsim.VERIF, "tools", "c19_worker.py"), "--case", path, "--garbage", str(1000 + 7777 * i)],
+                               capture_output=True, text=True, timeout=120, env=env)
+            if p.returncode != 0:
+                raise RuntimeError("c19 worker failed: " + p.stderr[-400:])
+            d = next(l for l in p.stdout.splitlines() if l.startswith("DIGEST "))[7:]
+            ob.probe("c19_fresh_interpreter_runs")
+            if d != d1:
+                ob.violate("C19", "fresh-interpreter", case.get("meta", {}).get("template", "?"),
+                           f"history/statistics digest {d} in a fresh interpreter (PYTHONHASHSEED={hs}) differs from {d1} in this one")
+    finally:
+        os.unlink(path)
+
+
 def _result(run, ob, case):
     log = run.log
     nfault = ob.faults
     kinds = tuple(sorted((n["type"], n.get("blocking", None), str(n.get("out_sel"))[:5], str(n.get("in_sel"))[:5]) for n in case["nodes"]))
-    shape = tuple(sorted((e["type"], e["cap"]) for e in case["edges"]))
+    shape = tuple(sorted((e["type"], str(e["cap"])) for e in case["edges"]))
     big = {}
     prev = None
     for r in log:
@@ -61,7 +121,12 @@ def generate_and_run(prop, tier, seed, idx, want_sample=False, **opts):
     case = gen_b.make_case(prop, rng, tier, opts)
     case["seed"], case["run"] = seed, idx
     run, ob = execute(case)
+    d = None
+    if opts.get("c19"):
+        d = c19_inprocess(case, run, ob)
     r = _result(run, ob, case)
+    if d is not None:
+        r["digest"] = d
     if want_sample:
         r["sample"] = case
     return r
@@ -70,6 +135,9 @@ def generate_and_run(prop, tier, seed, idx, want_sample=False, **opts):
 def replay(case):
     case = copy.deepcopy(case)
     run, ob = execute(case)
+    if case.get("meta", {}).get("prop") == "C19":
+        d = c19_inprocess(case, run, ob)
+        c19_cross(case, d, ob)
     return _result(run, ob, case)
 
 
